@@ -12,7 +12,9 @@ txt = ("### 0.6 Seeded changes (sub-agents, one property text and a scratch work
        "checked with the quick tier at seed 1, and reverted (the third round ran the same checks from rsync copies of /verif against scratch worktrees, "
        "`SEED_REPO`/`SEED_VERIF`, so that /repo stayed free; every change was finally re-run with `tools/seedrecheck.py`).  Five rounds (from the second on the agents were told what had "
        f"been tried and asked for other mechanisms; the third asked for two changes per property that need something specific to manifest): {n} changes, all reported by the final "
-       "checks.  Misses of earlier versions of the checks, and what they led to: "
+       "checks.  Every patch.diff applies to /repo's HEAD with `git apply`: the 25 that the later `fix:` commits had left without matching context were re-made by hand on the current code "
+       "(same change, demonstration failing again, 39 baseline tests passing) and re-run; one (C18-5) could no longer be expressed after fix 3c05f6c and sits in /verif/seeded-superseded/ "
+       "with the reason.  Misses of earlier versions of the checks, and what they led to: "
        "C06-2 (the failing magic is now found by a checker that still loads when the table lemma breaks; stale .vo files are removed), "
        "C10-2 (FLAG_REF members of sets and slot-order streams; a shared-frozenset source for C01), C07-1 (line-gap source, all generated sources in the quick tier), "
        "C18-1 (class-level mutable attributes are roots of the scanner; interned-string streams in the histories), C20-2 (first_line=0); second round: "
@@ -40,13 +42,13 @@ txt = ("### 0.6 Seeded changes (sub-agents, one property text and a scratch work
        "C04-9 (the public xdis.findlabels is now tied on the same code strings), C05-10 (the public findlinestarts with three-component versions), C05-9 (a function with more than 256 "
        "constants in C20's objects: lines that start with EXTENDED_ARG), C07-8 (constants shared by several code objects in the sources), C08-10 (unlisted patch releases must get their "
        "series' table), C17-10 (parse_positions per code unit), C18-8 (Dropbox files that fail part-way in the histories), C02-10 (operands of 2^31 and more in 3.6-3.10 word code), "
-       "C01-9/C01-10, C12-9/C12-10, C20-7, C02-9 (reported by C10, C05, C17, C04, C09).  C12-1 is a label-finder change: it is reported by C04; C12 takes jump targets from that same label finder.  "
+       "C01-9/C01-10, C12-9/C12-10, C20-7, C02-9 (reported by C10, C05, C17, C04, C09), C03-10 (Bytecode(a).get_instructions(b) is now compared with Bytecode(b)).  C12-1 is a label-finder change: it is reported by C04; C12 takes jump targets from that same label finder.  "
        "'(no-failing-input-found)' marks reports where the broken obligation is named but no concrete input was searched out.\n\n"
        "| id | change | reported by |\n|---|---|---|\n" + "\n".join(rows) + "\n\n")
 p = '/verif/DESIGN.md'
 s = open(p).read()
 a = s.index("### 0.6 Seeded changes")
-b = s.index("## 1. What is being decided")
+b = s.index("### 0.7 ") if "### 0.7 " in s else s.index("## 1. What is being decided")
 s = s[:a] + txt + s[b:]
 open(p, 'w').write(s)
 print(n, "rows")
